@@ -335,7 +335,17 @@ def op_target_slide(live, op):
     s = _slide(live, op.get("slide"))
     if s is None:
         return SKIP
-    sh = _shape_with_click(s)
+    if op.get("which") == "both":
+        # two shapes of the slide jump to the SAME slide (they share one relationship)
+        a, b = _shape_with_click(s, "first"), _shape_with_click(s, "last")
+        tgt = _slide(live, op["to"])
+        if a is None or b is None or a.shape_id == b.shape_id or tgt is None:
+            return SKIP
+        a.click_action.target_slide = tgt
+        b.click_action.target_slide = tgt
+        live.last_target = b.shape_id
+        return "set-both"
+    sh = _shape_with_click(s, op.get("which", "last"))
     if sh is None:
         return SKIP
     live.last_target = sh.shape_id
